@@ -593,43 +593,7 @@ func TestC04(t *testing.T) {
 
 		query := func(t *rapid.T) {
 			ops := mc.genQuery(t)
-			if f14 {
-				for i := range ops {
-					if ops[i].Kind == qWithUnion && len(ops[i].Names) == 1 && i > 0 {
-						CountExcluded("C04", "f14-withunion-single-widens")
-						ops[i].Names = append(ops[i].Names, ops[i].Names[0])
-					}
-				}
-			}
-			if f25 {
-				// known finding: after a filter that names a missing column (which truncates the
-				// selection), Union / WithUnion cannot add rows any more. Excluded: no union after such a filter.
-				emptied := false
-				kept := ops[:0]
-				for _, o := range ops {
-					if emptied && (o.Kind == qUnion || o.Kind == qWithUnion) {
-						CountExcluded("C04", "f25-union-after-missing-name")
-						continue
-					}
-					kept = append(kept, o)
-					switch {
-					case o.Kind == qWith:
-						for _, n := range o.Names {
-							if _, ok := mc.nameSet(n); !ok {
-								emptied = true
-							}
-						}
-					case o.Kind >= qWithValue:
-						ci := sch.col(o.Col)
-						if ci < 0 {
-							emptied = true
-						} else if k := sch.Cols[ci].Kind; (o.Kind == qWithString && !k.Textual()) || (o.Kind >= qWithInt && o.Kind <= qWithFloat && (!k.Numeric() || k == KBool)) {
-							emptied = true
-						}
-					}
-				}
-				ops = kept
-			}
+			ops = mc.sanitizeQuery(ops, f14, f25, "C04")
 			var parts []string
 			for _, o := range ops {
 				parts = append(parts, o.String())
@@ -742,4 +706,47 @@ func TestC04(t *testing.T) {
 		AddCounter("C04", "nontrivial_queries", int64(nontrivial))
 		RecordCase("C04", mc.Desc(), nontrivial > 0, mc.Labels()...)
 	})
+}
+
+// sanitizeQuery removes the triggers of listed findings from a generated filter chain
+// (f14: WithUnion with one name on a narrowed selection; f25: a union after a filter that
+// named a missing or wrongly typed column) and counts what it removed.
+func (mc *Machine) sanitizeQuery(ops []qOp, f14, f25 bool, prop string) []qOp {
+	sch := mc.Sch
+	if f14 {
+		for i := range ops {
+			if ops[i].Kind == qWithUnion && len(ops[i].Names) == 1 && i > 0 {
+				CountExcluded(prop, "f14-withunion-single-widens")
+				ops[i].Names = append(ops[i].Names, ops[i].Names[0])
+			}
+		}
+	}
+	if f25 {
+		emptied := false
+		kept := ops[:0]
+		for _, o := range ops {
+			if emptied && (o.Kind == qUnion || o.Kind == qWithUnion) {
+				CountExcluded(prop, "f25-union-after-missing-name")
+				continue
+			}
+			kept = append(kept, o)
+			switch {
+			case o.Kind == qWith:
+				for _, n := range o.Names {
+					if _, ok := mc.nameSet(n); !ok {
+						emptied = true
+					}
+				}
+			case o.Kind >= qWithValue:
+				ci := sch.col(o.Col)
+				if ci < 0 {
+					emptied = true
+				} else if k := sch.Cols[ci].Kind; (o.Kind == qWithString && !k.Textual()) || (o.Kind >= qWithInt && o.Kind <= qWithFloat && (!k.Numeric() || k == KBool)) {
+					emptied = true
+				}
+			}
+		}
+		ops = kept
+	}
+	return ops
 }
